@@ -37,9 +37,10 @@ fn gen_matrix(r: &mut Rng) -> Vec<f64> {
     }
 }
 
-pub fn gen_args(r: &mut Rng, sig: &str, special: bool) -> Vec<f64> { gen_args_mode(r, sig, special, false) }
+pub fn gen_args(r: &mut Rng, sig: &str, special: bool) -> Vec<f64> { gen_args_mode(r, sig, special, false, false) }
 /// tiny = every vector argument scaled far down as a whole (one round in five)
-pub fn gen_args_mode(r: &mut Rng, sig: &str, special: bool, tiny: bool) -> Vec<f64> {
+/// rep = every list has at least three points, one repeated right after itself and one repeated further on (one round in five)
+pub fn gen_args_mode(r: &mut Rng, sig: &str, special: bool, tiny: bool, rep: bool) -> Vec<f64> {
     let mut out = Vec::new();
     let cs: Vec<char> = sig.chars().collect();
     let mut k = 0;
@@ -53,7 +54,8 @@ pub fn gen_args_mode(r: &mut Rng, sig: &str, special: bool, tiny: bool) -> Vec<f
                     // every 8th vector is scaled far down as a whole (lengths below f64::EPSILON, squares that underflow
                     // towards subnormals): guards of the form `len < eps` on normalisation show only there
                     let d = r.distinct(n);
-                    if tiny || r.below(8) == 0 { let sc = *r.pick(&[1e-8, 1e-12, 1e-17, 1e-20, 1e-150]); out.extend(d.iter().map(|v| v * sc)); }
+                    // (1e-20 and below: the length is under EPSILON whatever the digits; 1e-150 and below: the squares underflow)
+                    if tiny || r.below(8) == 0 { let sc = *r.pick(&[1e-8, 1e-12, 1e-17, 1e-20, 1e-20, 1e-25, 1e-150, 1e-160]); out.extend(d.iter().map(|v| v * sc)); }
                     else {
                         // one vector in four carries exact 0 / 1 / -1 coordinates (axis-aligned vectors, directions with w = 0 and
                         // points with w = 1): shortcuts keyed on an exact component show only there
@@ -93,12 +95,14 @@ pub fn gen_args_mode(r: &mut Rng, sig: &str, special: bool, tiny: bool) -> Vec<f
             'L' => {
                 let n = cs[k + 1].to_digit(10).unwrap() as usize;
                 k += 1;
-                let len = match r.below(6) { 0 => 0, 1 => 1, _ => r.range(2, 9) as usize };
+                let len = if rep { r.range(4, 9) as usize } else { match r.below(6) { 0 => 0, 1 => 1, _ => r.range(2, 9) as usize } };
                 // one list in three repeats points (next to each other and apart): list wrappers must convert every element
-                let repeats = r.below(3) == 0;
+                let repeats = rep || r.below(3) == 0;
                 let mut prev: Vec<Vec<f64>> = Vec::new();
-                for _ in 0..len {
-                    let p = if repeats && !prev.is_empty() && r.coin() { if r.coin() { prev[prev.len() - 1].clone() } else { prev[r.below(prev.len() as u64) as usize].clone() } } else { r.distinct(n) };
+                for k in 0..len {
+                    let p = if rep && k == 1 { prev[0].clone() }                       // right after itself
+                            else if rep && k == len - 1 { prev[r.below(2) as usize + 1].clone() } // further on (a copy of point 1 or 2)
+                            else if repeats && !prev.is_empty() && r.coin() { if r.coin() { prev[prev.len() - 1].clone() } else { prev[r.below(prev.len() as u64) as usize].clone() } } else { r.distinct(n) };
                     out.extend(p.iter()); prev.push(p);
                 }
             }
@@ -152,7 +156,8 @@ pub fn emit(seed: u64, n: usize, lo: i64, hi: i64) {
             if count >= n { break; }
             let special = round % 5 == 4;
             let tiny = round % 5 == 2;
-            let args = if o.0 == 109 || o.0 == 116 { gen_lookat(&mut r) } else if o.0 == 146 && !special { gen_approx(&mut r) } else { gen_args_mode(&mut r, o.2, special, tiny) };
+            let rep = round % 5 == 1;
+            let args = if o.0 == 109 || o.0 == 116 { gen_lookat(&mut r) } else if o.0 == 146 && !special { gen_approx(&mut r) } else { gen_args_mode(&mut r, o.2, special, tiny, rep) };
             clear_trig();
             let a2 = args.clone();
             let op = o.0;
